@@ -20,6 +20,8 @@ def templates(tier, seed):
             ts.append(Template(f"ignore_na_field/{pred}/N={N}", t_opt, ("ignore_na_field", N, dict(pred=pred))))
         ts.append(Template(f"alias/N={N}", t_opt, ("alias", N, {})))
         for groups in (None, ["x"], ["x", "y"]):
+            if groups and "y" in groups and N < 2:
+                continue  # with one row the key column only holds 'x': asking for group 'y' is a usage error by design
             ts.append(Template(f"groupby/groups={groups}/N={N}", t_opt, ("groupby", N, dict(groups=groups))))
         ts.append(Template(f"wide_ignore_na/N={N}", t_opt, ("wide_ignore_na", N, {})))
     import tmpl_pl
